@@ -245,6 +245,31 @@ def part_b(md, rng):
     return None
 
 
+ESC_LABELS = ["a\\]b", "\\[x\\]", "x\\]", "\\]", "é\\]Ü y", "a\\\\", "a\\*b", "1\\[2\\]3"]
+
+
+def part_d(md, rng):
+    """labels with escaped brackets / backslashes: the use site must delimit the label as the definition does,
+    and the reference form must equal the inline form with the same text"""
+    lab = rng.choice(ESC_LABELS)
+    var = lab.upper() if rng.random() < 0.3 else lab
+    form, inline = rng.choice([("[t][{}]", "[t](/target 'T')"), ("[{}][]", "[{}](/target 'T')"), ("[{}]", "[{}](/target 'T')"),
+                               ("![alt][{}]", "![alt](/target 'T')"), ("![{}][]", "![{}](/target 'T')"),
+                               ("*x* [te*x*t][{}] y", "*x* [te*x*t](/target 'T') y")])
+    src = f"{form.format(var)}\n\n[{lab}]: /target 'T'\n"
+    inl = inline.format(var) + "\n"
+    try:
+        env = {}
+        out = guarded(md.render, src, env)
+        exp = guarded(md.render, inl)
+    except Exception as e:  # noqa: BLE001
+        return {"what": "raised " + type(e).__name__, "src": src}
+    if env.get("references") and out != exp:
+        return {"what": "reference form with an escaped bracket / backslash in the label differs from the inline form although the definition is recorded",
+                "src": src, "inline_form": inl, "html": out, "inline_html": exp, "recorded": list(env["references"])}
+    return None
+
+
 def part_c(md, rng):
     text, dest = rng.choice(TEXT), rng.choice(DEST)
     title = gen_title(rng, rng.choice("\"'(")) if rng.random() < 0.7 else ""
@@ -325,6 +350,12 @@ def run(ctx) -> int:
             d = part_c(md, r)
             if d:
                 return {"config": cfg, "part": "C", **d}
+        for k in range(int(150 * scale)):
+            cfg, md = mds[k % 3]
+            count["labels"] += 1
+            d = part_d(md, r)
+            if d:
+                return {"config": cfg, "part": "D", **d}
         return None
     direct = probe(rng, 1 if q else 25)
     conclude(rep, proofs, direct, "env-not-equivalent", disagreements, kbad,
@@ -350,6 +381,10 @@ def replay(body) -> int:
         a = md.render(body["reference_form"])
         b = md.render(body["inline_form"]) if "inline_form" in body else None
         d = None if a == b else {"reference_html": a, "inline_html": b}
+    elif body.get("part") == "D" and "src" in body:
+        md = configs.make_md(body["config"])
+        out, exp = md.render(body["src"]), md.render(body["inline_form"])
+        d = None if out == exp else {"html": out, "inline_html": exp}
     elif body.get("part") == "B" and "src" in body:
         out = configs.make_md(body["config"]).render(body["src"])
         d = None if 'href="/target"' in out else {"html": out}
